@@ -93,6 +93,9 @@ func (x *Exec) verifyFunction(fn *ssa.Function, con *Contract, ifaceCon *Contrac
 			sig := m.Type().(*types.Signature)
 			for i := 0; i < sig.Params().Len(); i++ {
 				n := sig.Params().At(i).Name()
+				if i < len(ifaceCon.ParamNames) {
+					n = ifaceCon.ParamNames[i]
+				}
 				if n != "" && i+1 < len(argT) {
 					c.vars[n] = argT[i+1]
 				}
